@@ -198,7 +198,10 @@ def shard_main(argv):
     @hseed(seed * 1000 + shard)
     @given(mod.strategy(hazards))
     def prop(case):
-        o = mod.run_case(case, ctx)
+        try:
+            o = mod.run_case(case, ctx)
+        except _worker.Inconclusive as e:
+            o = Outcome(discarded="inconclusive: " + str(e)[:60])
         counting = state["target"] is None
         record(case, o, counting)
         if o.failure is not None:
@@ -294,7 +297,10 @@ def run_replays(mod, pid, ctx, known):
         path = os.path.join(d, name)
         rec = json.load(open(path))
         case = dec(rec["case"])
-        o = mod.run_case(case, ctx)
+        try:
+            o = mod.run_case(case, ctx)
+        except _worker.Inconclusive:
+            continue
         count += 1
         entries = kf.get(os.path.normpath(path), [])
         if o.failure is not None:
@@ -312,6 +318,13 @@ def run_replays(mod, pid, ctx, known):
             if entries:
                 known_lines.append("NOTE: known finding %s no longer reproduces from %s" % (entries[0].get("sig"), name))
     return violations, known_lines, count
+
+
+def _shard_limit():
+    # the reference evaluator charges steps for data as well as for statements, this cap is the backstop: a shard that
+    # still runs away gets a MemoryError (the case is discarded) instead of taking the machine down
+    import resource
+    resource.setrlimit(resource.RLIMIT_AS, (12 << 30, 12 << 30))
 
 
 def main(argv):
@@ -397,7 +410,7 @@ def main(argv):
             out_path = os.path.join(outdir, "shard%d.json" % s)
             cmd = [sys.executable, "-m", "pbt.runner", "shard", mod_name, str(s), str(per), str(seed), tier, out_path]
             procs.append((s, out_path, subprocess.Popen(cmd, cwd=VERIF, stdout=subprocess.DEVNULL,
-                                                        stderr=subprocess.PIPE)))
+                                                        stderr=subprocess.PIPE, preexec_fn=_shard_limit)))
         for s, out_path, p in procs:
             _, err = p.communicate()
             if not os.path.exists(out_path):
@@ -460,9 +473,13 @@ def main(argv):
     evidence = {"property_id": pid, "tier": tier if tier in ("quick", "thorough") else "quick", "seed": seed,
                 "level": mod.LEVEL, "coverage": coverage, "assumptions": list(mod.ASSUMPTIONS), "wall_s": wall,
                 "violations": len(seen)}
-    os.makedirs(os.path.join(VERIF, "evidence"), exist_ok=True)
-    with open(os.path.join(VERIF, "evidence", pid + ".json"), "w") as f:
-        json.dump(evidence, f, indent=1, ensure_ascii=False)
+    if args.cases is None:
+        os.makedirs(os.path.join(VERIF, "evidence"), exist_ok=True)
+        with open(os.path.join(VERIF, "evidence", pid + ".json"), "w") as f:
+            json.dump(evidence, f, indent=1, ensure_ascii=False)
+    else:
+        # an ad hoc amount of work (--cases): not the registered tier, the evidence file is left alone
+        print("(--cases %d: evidence/%s.json not rewritten)" % (args.cases, pid))
     for line in known_lines:
         print(line)
     print("%s %s: %d cases, %d distinct non-trivial, %d vm runs, %.1fs" %
